@@ -14,7 +14,7 @@ variable {m n : Nat} [NeZero m] [NeZero n]
 theorem tie_refpoint_reference (A : Mat m n α) (o : Vec n Obj) (w : Vec n α) :
     (Gen.refpoint_reference ⟨A⟩ ⟨fun j => (o j).sgn⟩ ⟨w⟩).v = Agg.referencePoint A o := by
   funext j
-  simp only [Gen.refpoint_reference, Np.where, Np.equal, Np.max, Np.min, Bc.zw, Red.red, Truthy.t, Agg.referencePoint,
+  simp only [Gen.refpoint_reference, Np.where, Np.equal, Np.max, Np.min, Np.asarray, Np.squeeze, Bc.zw, Red.red, Truthy.t, Agg.referencePoint,
     Agg.colMax, Agg.colMin, id, sgn_eq_one, decide_eq_true_eq]
   first
     | done
